@@ -75,6 +75,9 @@ def run_lib(name, seed):
         "RandomKCNF": lambda: list(cnfgen.RandomKCNF(3, 8, 12, seed=seed).clauses()),
         "RandomKXOR": lambda: list(cnfgen.RandomKXOR(3, 8, 5, seed=seed).clauses()),
         "RandomKCNF_planted": lambda: list(cnfgen.RandomKCNF(3, 8, 12, seed=seed, planted_assignments=[[1, -2, 3, 4, -5, 6, 7, -8]]).clauses()),
+        "RandomKCNF_dense": lambda: list(cnfgen.RandomKCNF(2, 60, 7080, seed=seed).clauses()),
+        "RandomKCNF_dense_b": lambda: list(cnfgen.RandomKCNF(2, 60, 7079, seed=seed).clauses()),
+        "RandomKXOR_dense": lambda: list(cnfgen.RandomKXOR(2, 60, 3540, seed=seed).clauses()),
         "left_regular": lambda: sorted(bipartite_random_left_regular(5, 6, 3, seed=seed).edges()),
         "regular": lambda: sorted(bipartite_random_regular(6, 4, 2, seed=seed).edges()),
         "m_edges_sparse": lambda: sorted(bipartite_random_m_edges(5, 5, 4, seed=seed).edges()),
